@@ -586,11 +586,35 @@ func sweepInstance(text string, n int) string {
 	return r.Replace(text)
 }
 
+// sweepSizes: every size 0..sweepMax (thorough: 0..1100), then the neighbourhoods of the powers of two above that
+// (2^k-1, 2^k, 2^k+1 up to 4096, thorough 16384). Nesting templates (%( and %[) stop at 1025: their cost is quadratic.
+func sweepSizes(ctx *harness.Ctx, text string) []int {
+	dense, top := sweepMax, 4096
+	if ctx.Thorough() {
+		dense, top = 1100, 16384
+	}
+	if strings.Contains(text, "%(") || strings.Contains(text, "%[") {
+		top = 1024
+	}
+	var ns []int
+	for n := 0; n <= dense; n++ {
+		ns = append(ns, n)
+	}
+	for b := 512; b <= top; b *= 2 {
+		for _, n := range []int{b - 1, b, b + 1} {
+			if n > dense {
+				ns = append(ns, n)
+			}
+		}
+	}
+	return ns
+}
+
 // forSweep calls f for this shard's share of (template, n).
 func forSweep(ctx *harness.Ctx, f func(entry, src string, n int) bool) {
 	idx := 0
 	for _, tp := range sweepTemplates {
-		for n := 0; n <= sweepMax; n++ {
+		for _, n := range sweepSizes(ctx, tp.text) {
 			idx++
 			if idx%ctx.Of != ctx.Shard {
 				continue
